@@ -163,12 +163,37 @@ def c17_kill(rep, tmp, tier, only=None):
     configs.append(("packet-string", "overwrite", [3, 4]))
     # (512 pages: one work() call can find more than a megabyte waiting.)
     configs.append(("stream-big", "overwrite", [100000, 3, 300000, 70000]))
-    for kind, mode, chunks in configs:
-        if only and (only["kind"], only["mode"], only["chunks"]) != (kind, mode, chunks):
-            continue
-        d = os.path.join(tmp, "kill")
+    # One worker per configuration (each in a directory of its own); the
+    # results are merged in configuration order.
+    import concurrent.futures
+    todo = [(i, c) for i, c in enumerate(configs)
+            if not only or (only["kind"], only["mode"], only["chunks"]) == c]
+
+    def one(ic):
+        i, (kind, mode, chunks) = ic
+        sub = new_report(rep["property"])
+        c17_kill_config(sub, os.path.join(tmp, f"kill-{i}"), tmp, kind, mode, chunks, only)
+        return sub
+
+    with concurrent.futures.ThreadPoolExecutor(max_workers=8) as ex:
+        subs = list(ex.map(one, todo))
+    for sub in subs:
+        for k in ("evaluations", "transitions", "distinct_nontrivial"):
+            rep[k] += sub[k]
+        rep["caps"] += sub["caps"]
+        rep["exhaustive"] = rep["exhaustive"] and sub["exhaustive"]
+        for v in sub["violations"]:
+            violate(rep, v["signature"], v["message"], v["replay"])
+        for smp in sub["samples"]:
+            if len(rep["samples"]) < 4:
+                rep["samples"].append(smp)
+
+
+def c17_kill_config(rep, d, tmp, kind, mode, chunks, only):
+    if True:
         shutil.rmtree(d, ignore_errors=True)
         os.makedirs(d)
+        tmp = d
         path = os.path.join(d, "out.bin")
         prefix = b""
         if mode == "append":
@@ -188,14 +213,14 @@ def c17_kill(rep, tmp, tier, only=None):
         if w1 != w2 or r1.returncode != 0:
             rep["caps"].append(f"C17 {kind}/{mode}: recording not reproducible; skipped")
             rep["exhaustive"] = False
-            continue
+            return
         want = prefix + expected_stream(chunks, kind)
         got = open(path, "rb").read()
         case0 = {"engine": "faultx", "what": "kill", "kind": kind, "mode": mode, "chunks": chunks}
         if got != want:
             violate(rep, f"C17/FileSink-{kind}/content-no-kill",
                     f"{case0}: without any kill the file holds {len(got)} bytes, want {len(want)}", case0)
-            continue
+            return
         n = len(w1)
         ks = range(1, n + 2) if not only else [only["k"]]
         for k in ks:
